@@ -53,8 +53,11 @@ class Ctx:
         self.exhaustive = None
         self.known = [k for k in load_known() if k.get("property") == pid]
         self.notes = []
+        self.quiet = False           # child contexts (vlib/par.py) only collect; the parent reports
+        self.pending = []
         # replay files of an earlier run of this check are stale
-        if os.path.isdir(REPLAY_DIR):
+        if os.path.isdir(REPLAY_DIR) and not os.environ.get("VERIF_CHILD_CTX"):
+            os.environ["VERIF_CHILD_CTX"] = "1"      # contexts created later in this process tree are children
             for f in os.listdir(REPLAY_DIR):
                 if f.startswith(pid + "_"):
                     try:
@@ -88,6 +91,10 @@ class Ctx:
     # ------------------------------------------------------------------ verdicts
     def violation(self, signature, description, replay):
         """Report one violation. Known open findings become KNOWN-FINDING lines (once per entry)."""
+        if self.quiet:
+            self.pending.append((signature, description, replay))
+            self.violations.append({"signature": signature})
+            return True
         for e in self.known:
             if e.get("status") == "open" and sig_matches(e.get("signature", {}), signature):
                 key = json.dumps(e.get("signature"), sort_keys=True)
